@@ -216,7 +216,7 @@ LAYER2 = {
     "C04": ["LimbShift_small", "InvRing_small"],
     "C05": ["LimbShift_small"],
     "C06": ["LimbShift_small"],
-    "C09": ["BaseConv_spigot_small", "BaseConv_le_small", "BaseConv_be_small", "Fmt_small"],
+    "C09": ["BaseConv_spigot_small", "BaseConv_le_small", "BaseConv_be_small", "Fmt_small", "MC_Text_small"],
     "C10": ["Pow_powmod_small", "Pow_addmod_small", "Lehmer_inv_small"],
     "C11": ["Redc_small", "Redc_square_small", "Redc_square_3limb"],
     "C12": ["Lehmer_prefix_small", "Lehmer_full_small", "Lehmer_ext_small", "Lehmer_ext_narrow"],
@@ -238,8 +238,8 @@ def layer2_for(prop):
             last = json.load(fh)
     except (OSError, ValueError):
         last = {}
-    return {"note": "design-level models (algorithms with the limb width as a constant; for C16 / C17 the self-consistency of the codec "
-                    "oracle, spec/MC_Codecs.tla), model-checked exhaustively by ./check --setup; "
+    return {"note": "design-level models (algorithms with the limb width as a constant; for C09 / C16 / C17 also the self-consistency of the "
+                    "text and codec oracles, spec/MC_Text.tla and spec/MC_Codecs.tla), model-checked exhaustively by ./check --setup; "
                     "they never change this check's exit code (DESIGN.md 8, algo/README.md)",
             "instances": {n: last.get(n, "not run since the last setup") for n in names}}
 
